@@ -148,7 +148,7 @@ def run_obligations(plan, work):
             if o.oid in results:
                 continue
             if "c%d" % i in claimed:
-                results[o.oid] = {"oid": o.oid, "fn": o.fn, "verdict": "error", "why": "worker died while running this obligation: " + (errs[-1][-800:] if errs else ""),
+                results[o.oid] = {"oid": o.oid, "fn": o.fn, "verdict": "inconclusive", "why": "worker process died while running this obligation (stack overflow / out of memory?): " + (errs[-1][-300:] if errs else ""),
                                   "paths": 0, "solver_checks": 0, "solver_s": 0.0, "wall_s": 0.0}
             else:
                 nxt.append(o)
